@@ -291,6 +291,9 @@ fn enc_from_json(v: &Value) -> Enc {
 
 fn payloads(thorough: bool) -> Vec<Vec<u8>> {
     let mut v: Vec<Vec<u8>> = vec![
+        // longer than every "stored / raw mode" threshold of the codecs (FSE codes inputs of 100 bytes or
+        // more, below that it stores them): reaches the table + payload + final-state layout of the coders
+        b"it was the best of times, it was the worst of times, it was the age of wisdom, it was the age of foolishness, it was the epoch of belief, it was the epoch of incredulity".to_vec(),
         b"the quick brown fox jumps over the lazy dog. the quick brown fox jumps again.".to_vec(),
         b"abracadabra abracadabra".to_vec(),
         b"abracadabra".to_vec(),
